@@ -2,7 +2,8 @@
 
 Hygiene (each item was a false alarm of a throw-away fuzzer during design):
  * costs are compared per priority with absent levels read as 0;
- * only 'operation undefined' / 'tuple ignored' / 'unsafe' exclude an instance, info messages do not;
+ * only 'operation undefined' / 'tuple ignored' (non-integer weight; a negative integer ignored by #sum+ is regular
+   semantics and is compared) / 'unsafe' exclude an instance, info messages do not;
  * enumeration is capped; a capped or timed-out instance is skipped and counted, never compared.
 """
 from __future__ import annotations
@@ -26,6 +27,17 @@ class Broken(Exception):
     """program rejected by clingo (syntax / safety)"""
 
 
+def _negative_weight(msg: str) -> bool:
+    """'tuple ignored' with an INTEGER weight is the documented meaning of #sum+ (negative weights do not count), not an
+    undefined operation: such instances are compared (corrections log 18)"""
+    lines = msg.strip().splitlines()
+    if len(lines) < 2:
+        return False
+    import re
+    first = re.split(r"[,@]", lines[1].strip(), 1)[0].strip()
+    return bool(re.fullmatch(r"-\d+", first))
+
+
 class Logger:
     def __init__(self):
         self.msgs = []
@@ -39,7 +51,7 @@ class Logger:
         for code, msg in self.msgs:
             if code == clingo.MessageCode.RuntimeError or "unsafe" in msg or ": error:" in msg:
                 return "error"
-            if "operation undefined" in msg or "tuple ignored" in msg:
+            if "operation undefined" in msg or ("tuple ignored" in msg and not _negative_weight(msg)):
                 res = "undefined"
         return res
 
